@@ -3,11 +3,23 @@ package main
 import (
 	"fmt"
 	"os"
+	"sort"
 	"time"
 )
 
+// Subcommands register themselves (from init functions in their own files), so that adding one
+// does not touch this file.
+var subcommands = map[string]func(args []string){}
+
+func register(name string, f func(args []string)) { subcommands[name] = f }
+
 func usage() {
-	fmt.Fprintln(os.Stderr, "usage: probe <subcommand> [args]")
+	names := make([]string, 0, len(subcommands))
+	for k := range subcommands {
+		names = append(names, k)
+	}
+	sort.Strings(names)
+	fmt.Fprintln(os.Stderr, "usage: probe <subcommand> [args]; subcommands:", names)
 	os.Exit(2)
 }
 
@@ -18,22 +30,23 @@ func repoRoot() string {
 	return "/repo"
 }
 
+func init() {
+	register("modes", func(a []string) { dumpModes() })
+	register("modecall", modeCall)
+	register("scantables", func(a []string) { dumpScanTables(repoRoot()) })
+	register("scan", func(a []string) { runCases(a[0], 5*time.Second, scanObs) })
+	register("parse", func(a []string) { runCases(a[0], 5*time.Second, parseObs) })
+	register("tc", func(a []string) { runCases(a[0], 10*time.Second, tcObs) })
+	register("run1", run1)
+}
+
 func main() {
 	if len(os.Args) < 2 {
 		usage()
 	}
-	switch os.Args[1] {
-	case "modes":
-		dumpModes()
-	case "scantables":
-		dumpScanTables(repoRoot())
-	case "scan":
-		runCases(os.Args[2], 5*time.Second, scanObs)
-	case "parse":
-		runCases(os.Args[2], 5*time.Second, parseObs)
-	case "modecall":
-		modeCall(os.Args[2:])
-	default:
+	f, ok := subcommands[os.Args[1]]
+	if !ok {
 		usage()
 	}
+	f(os.Args[2:])
 }
